@@ -74,7 +74,12 @@ func installC04Hooks(ch *chaos) {
 	// right at the hand-off to the WAL: whatever lets a NewTerm in between the leader's status check and the
 	// append shows as log growth after the answer
 	vhook.Set("leader.write.before-append", func(string, ...any) {
-		if x := next() % 4; x != 0 {
+		ch.r.Count("writes_held_at_the_wal_handoff", 1)
+		// now and then long enough to outlast a whole NewTerm (which syncs the log before it reads the head)
+		switch x := next() % 8; {
+		case x == 0:
+			time.Sleep(time.Duration(5+next()%15) * time.Millisecond)
+		case x < 4:
 			time.Sleep(time.Duration(x*400) * time.Microsecond)
 		}
 	})
